@@ -35,13 +35,13 @@ type mapLoop struct {
 }
 
 type commuteVerdict struct {
-	Func   string   `json:"function"`
-	Loop   int      `json:"loop"`
-	Pos    string   `json:"pos"`
-	Class  string   `json:"class"` // commutative | bag | flagged
-	Notes  []string `json:"notes,omitempty"`
-	Flags  []string `json:"flags,omitempty"`
-	Annot  string   `json:"annotation,omitempty"`
+	Func  string   `json:"function"`
+	Loop  int      `json:"loop"`
+	Pos   string   `json:"pos"`
+	Class string   `json:"class"` // commutative | bag | flagged
+	Notes []string `json:"notes,omitempty"`
+	Flags []string `json:"flags,omitempty"`
+	Annot string   `json:"annotation,omitempty"`
 }
 
 func naturalLoops(fn *ssa.Function) map[*ssa.BasicBlock]map[*ssa.BasicBlock]bool {
